@@ -70,6 +70,14 @@ def classify(n, ps):
             calls = [c["method"] for c, _ in F.calls(anc) if c.get("k") == "MethodCall" and not c.get("exp")]
             mutating = {"extend", "push", "push_back", "push_front", "insert", "remove", "pop", "clear", "append", "entry", "or_insert", "or_insert_with", "retain", "truncate", "swap", "sort", "set_data", "add_data", "union"}
             muts = [c for c in calls if c in mutating]
+            # a loop whose body *tests* the structure it is filling (a guard or `if` mentioning the receiver of one of its own
+            # mutating calls) makes every iteration depend on the ones before it: the iteration order shows in the result
+            mut_recv = {F.local_of(F.strip(c["recv"])) for c, _ in F.calls(anc) if c.get("k") == "MethodCall" and not c.get("exp") and c["method"] in mutating}
+            mut_recv.discard(None)
+            conds = [x["cond"] for x, _ in F.walk(anc) if x.get("k") == "If" and not x.get("exp")] + [a["guard"] for m, _ in F.exprs(anc, "Match") for a in m["arms"] if "guard" in a]
+            reads_own = any(y.get("k") == "Path" and y.get("res") == "local" and y.get("local") in mut_recv for cnd in conds for y, _ in F.walk(cnd))
+            if reads_own:
+                return "loop:state-dependent", anc
             if muts and set(muts) <= {"extend", "push", "push_back"} and not has_assign:
                 return "for_each:extend", anc  # the same consumer as `.for_each(|x| vec.push/extend(..))`
             return ("loop:assigns" if has_assign else "loop:calls-only"), anc
